@@ -11,6 +11,13 @@
 //        convex-convex detector through GeneralContactSubsystem: A = Ellipsoid(r1) at c1 (axis-aligned), B = Ellipsoid(r2) (kind2 0) or
 //        Sphere(r2[0]) (kind2 1) rotated by phi about the common axis, centred at c1 + t e_axis + offs; order 1 adds B before A;
 //        useQ 1 moves both by the rigid motion (rot(Qang), tq).   -> n {surf1 surf2 depth normal[3] location[3] radius} Q[9]
+//   TB useQ Qang[3] tq[3] nb {ang[3] p[3]}*nb nsurf {body shape par[3] offC[3] placeAng[3] placeP[3]}*nsurf
+//        ContactTrackerSubsystem scene: nb Free bodies (body 0 = Ground), surfaces placed on their bodies with ROTATED and translated X_BS;
+//        shape 0 Sphere(par0) 1 Ellipsoid(par) 2 cube mesh (half lengths par) with its vertices shifted by offC (bounding sphere off the
+//        origin) 3 sphere mesh (radius par0) shifted by offC 4 HalfSpace 5 Brick(par); useQ 1 moves every body by (rot(Qang), tq).
+//        -> nsurf {body X_GB[12] X_BS[12] bsCentre[3] bsRadius} | nbrute {i j kind value} | nactive {i j kind value}
+//           brute = the registered tracker called directly on EVERY pair of surfaces on different bodies, exactly as the subsystem
+//           calls it (value: depth of a point contact / number of faces of a mesh contact); active = getActiveContacts
 //   SEARCH seed n                   implementation-only predicates (contact iff overlap, formulas, swap, rigid motion)
 #include "Simbody.h"
 #include <cstdio>
@@ -135,6 +142,60 @@ int main() {
                 else { c.addBody(set, w, gB, TB); c.addBody(set, m.updGround(), ContactGeometry::Ellipsoid(r1), TA); }
                 State st = sys.realizeTopology(); sys.realize(st, Stage::Dynamics);
                 prContacts(c.getContacts(st, set)); pr(X.R());
+            }
+            else if (k == "TB") {
+                const bool useQ = nx() != 0; Vec3 qa = nv(), tq = nv(); Transform XQ = useQ ? Transform(rot(qa), tq) : Transform();
+                const int nb = (int)nx(); std::vector<Transform> pose(nb + 1); for (int b = 1; b <= nb; ++b) { Vec3 a = nv(), pp = nv(); pose[b] = XQ * Transform(rot(a), pp); }
+                const int nsurf = (int)nx();
+                MultibodySystem sys; SimbodyMatterSubsystem matter(sys); ContactTrackerSubsystem tracker(sys);
+                std::vector<Body::Rigid> bodies(nb + 1, Body::Rigid(MassProperties(1.0, Vec3(0), Inertia(1))));
+                const ContactMaterial mat(1e4, 0.1, 0, 0, 0);
+                for (int i = 0; i < nsurf; ++i) {
+                    const int b = (int)nx(), shape = (int)nx(); Vec3 par = nv(), offC = nv(), pa = nv(), ppos = nv(); Transform X_BS(rot(pa), ppos);
+                    ContactGeometry g = ContactGeometry::Sphere(par[0]);
+                    if (shape == 1) g = ContactGeometry::Ellipsoid(par);
+                    else if (shape == 2) { PolygonalMesh m = PolygonalMesh::createBrickMesh(par, 1); m.transformMesh(Transform(offC)); g = ContactGeometry::TriangleMesh(m); }
+                    else if (shape == 3) { PolygonalMesh m = PolygonalMesh::createSphereMesh(par[0], 1); m.transformMesh(Transform(offC)); g = ContactGeometry::TriangleMesh(m); }
+                    else if (shape == 4) g = ContactGeometry::HalfSpace();
+                    else if (shape == 5) g = ContactGeometry::Brick(par);
+                    if (b == 0) matter.updGround().updBody().addContactSurface(X_BS, ContactSurface(g, mat));
+                    else bodies[b].addContactSurface(X_BS, ContactSurface(g, mat));
+                }
+                std::vector<MobilizedBody> mb(nb + 1); mb[0] = matter.updGround();
+                for (int b = 1; b <= nb; ++b) mb[b] = MobilizedBody::Free(matter.updGround(), Transform(), bodies[b], Transform());
+                State st = sys.realizeTopology();
+                for (int b = 1; b <= nb; ++b) mb[b].setQToFitTransform(st, pose[b]);
+                sys.realize(st, Stage::Position);
+                const int ns = tracker.getNumSurfaces(); pr((double)ns);
+                std::vector<Transform> XGS(ns);
+                for (ContactSurfaceIndex i(0); i < ns; ++i) {
+                    const MobilizedBody& m = tracker.getMobilizedBody(i); const Transform& XBS = tracker.getContactSurfaceTransform(i);
+                    Vec3 c; Real r; tracker.getContactSurface(i).getShape().getBoundingSphere(c, r);
+                    pr((double)(int)m.getMobilizedBodyIndex()); pr(m.getBodyRotation(st)); pr(m.getBodyOriginLocation(st)); pr(XBS.R()); pr(XBS.p()); pr(c); pr(r);
+                    XGS[i] = m.getBodyTransform(st) * XBS;
+                }
+                std::printf("| ");
+                auto value = [](const Contact& c) -> std::pair<double,double> {
+                    if (CircularPointContact::isInstance(c)) return std::make_pair(1.0, CircularPointContact::getAs(c).getDepth());
+                    if (EllipticalPointContact::isInstance(c)) return std::make_pair(2.0, EllipticalPointContact::getAs(c).getDepth());
+                    if (TriangleMeshContact::isInstance(c)) { const TriangleMeshContact& t = TriangleMeshContact::getAs(c); return std::make_pair(3.0, (double)(t.getSurface1Faces().size() + t.getSurface2Faces().size())); }
+                    if (BrickHalfSpaceContact::isInstance(c)) return std::make_pair(4.0, BrickHalfSpaceContact::getAs(c).getDepth());
+                    return std::make_pair(9.0, 0.0); };
+                std::vector<double> brute;
+                for (ContactSurfaceIndex i(0); i < ns; ++i) for (ContactSurfaceIndex j(i + 1); j < ns; ++j) {
+                    if (tracker.getMobilizedBody(i).getMobilizedBodyIndex() == tracker.getMobilizedBody(j).getMobilizedBodyIndex()) continue;
+                    const ContactGeometry& g1 = tracker.getContactSurface(i).getShape(); const ContactGeometry& g2 = tracker.getContactSurface(j).getShape();
+                    if (!tracker.hasContactTracker(g1.getTypeId(), g2.getTypeId())) continue;
+                    bool rev; const ContactTracker& tr = tracker.getContactTracker(g1.getTypeId(), g2.getTypeId(), rev);
+                    UntrackedContact prior(rev ? j : i, rev ? i : j); Contact next;
+                    if (rev) tr.trackContact(prior, XGS[j], g2, XGS[i], g1, 0, next); else tr.trackContact(prior, XGS[i], g1, XGS[j], g2, 0, next);
+                    if (!next.isEmpty()) { std::pair<double,double> v = value(next); brute.push_back((double)(int)i); brute.push_back((double)(int)j); brute.push_back(v.first); brute.push_back(v.second); }
+                }
+                pr((double)(brute.size() / 4)); for (size_t q = 0; q < brute.size(); ++q) pr(brute[q]);
+                std::printf("| ");
+                const ContactSnapshot& act = tracker.getActiveContacts(st); pr((double)act.getNumContacts());
+                for (int q = 0; q < act.getNumContacts(); ++q) { const Contact& c = act.getContact(q); int a = (int)c.getSurface1(), b = (int)c.getSurface2(); if (a > b) std::swap(a, b);
+                    std::pair<double,double> v = value(c); pr((double)a); pr((double)b); pr(v.first); pr(v.second); }
             }
             else if (k == "TS") { Rotation R = rot(nv()); Vec3 p1 = nv(); Real r1 = nx(); Vec3 p2 = nv(); Real r2 = nx(); Real cutoff = nx();
                 ContactTracker::SphereSphere tr; Contact cur; UntrackedContact prior(ContactSurfaceIndex(0), ContactSurfaceIndex(1));
